@@ -547,22 +547,23 @@ def pokeSlotProg (slot data : Nat) : Prog := fun _ => prims ([.load 12 0 slot] +
 inductive ImageOp where
   | gridOfImage           -- Image.grid(g): `_make_instance(grid=g)`: new object, same storage, `_grid = g`   (data/image.py @1085-1098)
   | gridOfBatch (n : Nat) -- ImageBatch.grid(g): same, `_grid = (g,) * N`                                     (data/image.py @249-278)
-  | shallow               -- copy.copy(x) / `_make_instance()`: new object on the same storage, same `_grid`  (data/tensor.py @63-72)
+  | shallow               -- copy.copy(x) / `_make_instance()`: new object on the same storage, same `_grid` (and `_axes`)  (data/tensor.py @63-72)
   | functional            -- any op returning new data and new grid(s): resize, resample, crop/pad with margin, sample, normalize, rescale, axes(a), …
   | deepImage             -- Image.__deepcopy__: data.clone(), grid.clone()                                   (data/image.py @992-1002)
   | deepBatch (n : Nat)   -- ImageBatch.__deepcopy__: data.clone(), tuple(grid.clone() for …)                 (data/image.py @86-96)
   deriving DecidableEq, Repr
 
-/-- `flow` = the receiver is a FlowField / FlowFields: their `_make_instance(self, data, grid=None, axes=None)`
-    (data/flow.py @85-96, @409-418) has a required `data` parameter that `ImageBatch.grid(g)`, `Image.grid(g)`
-    and `DataTensor.__copy__` do not pass: these three raise TypeError for flow fields (nothing is modified). -/
-def imageOpPrims (flow : Bool) (data : Nat) : ImageOp → List Prim
-  | .gridOfImage => if flow then [.raise] else [.copyNode 10 0, .store 10 kGrid 1]
+/-- The same transcription serves Image / ImageBatch and FlowField / FlowFields: since commit 5463a8b
+    `FlowField(s)._make_instance(data=None, grid=None, axes=None)` (data/flow.py @85-100, @413-426) defaults to
+    `self.tensor()` (same storage), `self._grid` and `self._axes`, so `grid(g)` and `copy.copy` of a flow field
+    build a new object on the same storage exactly like their image counterparts (`_axes` is an immediate entry
+    copied by `copyNode`). -/
+def imageOpPrims (data : Nat) : ImageOp → List Prim
+  | .gridOfImage => [.copyNode 10 0, .store 10 kGrid 1]
   | .gridOfBatch n =>
-      if flow then [.raise] else
       [.copyNode 10 0, .newNode 11 tTuple 0] ++ (List.range n).flatMap (fun i => [Prim.store 11 (100 + i) 1]) ++
       [.store 10 kGrid 11]
-  | .shallow => if flow then [.raise] else [.copyNode 10 0]
+  | .shallow => [.copyNode 10 0]
   | .functional =>
       [.copyNode 10 0, .newNode 11 tOther data, .store 10 kData 11, .newNode 12 tGrid data, .store 10 kGrid 12]
   | .deepImage =>
@@ -573,7 +574,7 @@ def imageOpPrims (flow : Bool) (data : Nat) : ImageOp → List Prim
       (List.range n).flatMap (fun i => [Prim.load 14 18 (100 + i)] ++ cloneSlotsP 15 14 gridSlots ++ [.store 19 (100 + i) 15]) ++
       [.store 10 kGrid 19]
 
-def imageOpProg (flow : Bool) (op : ImageOp) (data : Nat) : Prog := fun _ => prims (imageOpPrims flow data op)
+def imageOpProg (op : ImageOp) (data : Nat) : Prog := fun _ => prims (imageOpPrims data op)
 
 /-- in-place variants on the receiver: `image.grid_(g)` (rebinding) and `image.normalize_()` / `image.add_(…)`
     (write into the data storage) -/
